@@ -47,6 +47,10 @@ for g in GROUPS:
             env.eq('Adj_method', raw(r), getattr(op, g + '_AdjXa').forward(Xd, ad))
             env.eq('AdjT_method', raw(rt), getattr(op, g + '_AdjTXa').forward(Xd, ad))
             env.eq('Adj_accepts_plain_tensor', raw(X.Adj(ad)), raw(r))
+            # the functional forms pp.Adj / pp.AdjT / pp.Jinvp / pp.Retr are the methods (each wrapper calls ITS method)
+            for fname, arg in (('Adj', alg(pp, g, ad)), ('AdjT', alg(pp, g, ad)), ('Retr', alg(pp, g, ad))):
+                if hasattr(pp, fname):
+                    env.eq(f'pp.{fname}(X, a) is X.{fname}(a)', raw(getattr(pp, fname)(X, arg)), raw(getattr(X, fname)(arg)))
 
         @obligation(f'C05.{g}.Retr_add', functions=[f'{LT}:LieType.Retr', f'{LT}:{g}Type.add_', f'{LT}:LieTensor.add', f'{LT}:LieTensor.add_',
                                                     f'{LT}:LieTensor.__add__', f'{LT}:LieType.add_', f'{LT}:LieTensor.Retr'], max_paths=32)
@@ -227,6 +231,43 @@ def Jr_group(env):
     Xd = env.unitquat('X', regimes=('generic', 'small', 'neg'))
     X = lie(pp, 'SO3', Xd)
     env.eq('group_Jr_is_Jr_of_Log', X.Jr(), X.Log().Jr())
+
+
+@bounded('C05.add_autograd_modes', functions=[f'{LT}:LieTensor.add', f'{LT}:LieTensor.__add__', f'{LT}:LieType.Retr', f'{LT}:LieTensor.Retr'])
+def add_modes(rng, tier):
+    """real code: X + a, X.add(a), pp.add(X, a) and X.Retr(a) are OUT OF PLACE in every autograd mode (grad on, no_grad, inference_mode) and for
+    every kind of operand (plain, requires_grad, pp.Parameter): the result is Exp(a) @ X (a + b for algebra operands), X keeps its values and the result
+    does not share its storage - evaluated left to right as the property writes it"""
+    import torch, pypose as pp, contextlib
+    fails = []; evals = 0
+    d = torch.float64
+    modes = {'grad on': contextlib.nullcontext, 'no_grad': torch.no_grad, 'inference_mode': torch.inference_mode}
+    for gname in ('SO3', 'SE3', 'RxSO3', 'Sim3', 'so3', 'se3'):
+        for kind in ('plain', 'requires_grad', 'Parameter'):
+            for mname, ctx in modes.items():
+                X0 = getattr(pp, 'randn_' + gname)(2, dtype=d)
+                a = getattr(pp, 'randn_' + gname.lower())(2, sigma=0.3, dtype=d)
+                X = pp.Parameter(X0.clone()) if kind == 'Parameter' else X0.clone().requires_grad_(kind == 'requires_grad')
+                want = (a.Exp() @ X0).tensor() if gname[0].isupper() else X0.tensor() + a.tensor()
+                calls = [('X + a', lambda: X + a), ('X.add(a)', lambda: X.add(a)), ('pp.add(X, a)', lambda: pp.add(X, a))] + ([('X.Retr(a)', lambda: X.Retr(a))] if gname[0].isupper() else [])
+                for cname, f in calls:
+                    try:
+                        with ctx():
+                            r = f()
+                    except Exception as e:
+                        fails.append(dict(clause='add_raises', signature=f'{gname}/{kind}/{mname}/{cname}', error=f'{type(e).__name__}: {e}'[:120])); continue
+                    evals += 1
+                    sig = f'{cname}/{kind}/{mname}'
+                    if not torch.allclose(r.detach().tensor() if hasattr(r, 'ltype') else r.detach(), want, atol=1e-12):
+                        fails.append(dict(clause='sum_is_the_retraction', signature=sig, group=gname))
+                    elif not torch.equal(X.detach().tensor(), X0.tensor()):
+                        fails.append(dict(clause='out_of_place_sum_leaves_its_operand', signature=sig, group=gname))
+                    elif r.data_ptr() == X.data_ptr():
+                        fails.append(dict(clause='out_of_place_sum_owns_its_storage', signature=sig, group=gname))
+    uniq = {}
+    for f_ in fails: uniq.setdefault((f_['clause'], f_['signature']), f_)
+    return dict(evaluations=evals, distinct_nontrivial=evals, rule='6 ltypes x 3 operand kinds x 3 autograd modes x 3-4 spellings', bound='batch of 2, float64',
+                failures=list(uniq.values())[:8], samples=[])
 
 
 @obligation('C05.canary.adj_transposed', functions=[f'{OPS}:SE3_AdjXa.forward'], canary=True)
